@@ -24,6 +24,8 @@ func runC04(c *core.Ctx) {
 	h.entryTermFromLog("C04.2c entry-term")
 	// an installed snapshot stands for the log prefix: its label is the (index, term) the follower compares with
 	h.snapshotFallback("C04.2d snapshot-fallback")
+	// …whose term is the applied term kept by the state machine goroutine
+	h.applyInOrder("C04.2e applied-position")
 	c.Clause("C04.3/5 truncation only from the first conflicting index, never by a leader")
 	h.truncationOnlyAtConflict("C04.3 truncation")
 	// truncate-then-append relies on the segment's write position following a back removal
